@@ -1,6 +1,7 @@
 package main
 
 import (
+	"encoding/json"
 	"flag"
 	"fmt"
 	"os"
@@ -33,8 +34,18 @@ func main() {
 	dump := flag.String("dump", "", "debug: dump PPA paths of pkg:Func (e.g. cache:(*Target).gnmiUpdate)")
 	noSelf := flag.Bool("noselftest", false, "thorough: skip variant self-validation")
 	writeRef := flag.Bool("write-refsigs", false, "development: write <verif>/refsigs.json (names and signatures of the module's functions and fields on the reference tree) and exit")
+	dumpExplain := flag.Bool("dump-explain", false, "print {property: {explain, not_covered}} as JSON and exit (used by tools/gen_manifest.py)")
 	strictSelf := flag.Bool("selftest-strict", false, "thorough: a variant expectation that is not met makes the run exit 2 (development / regression use)")
 	flag.Parse()
+	if *dumpExplain {
+		out := map[string]map[string]string{}
+		for id, pd := range props {
+			out[id] = map[string]string{"explain": pd.Explain, "not_covered": pd.NotCover}
+		}
+		b, _ := json.MarshalIndent(out, "", " ")
+		fmt.Println(string(b))
+		os.Exit(0)
+	}
 	if t := os.Getenv("VERIF_TIER"); t != "" && *tier == "" {
 		*tier = t
 	}
